@@ -609,6 +609,10 @@ _more("C38", "Added (C38-hosts-eval): evdns_getaddrinfo_fromhosts evaluated over
       "table -> exactly the entries of the wanted family, or the address-family error when there is none (never 'not in hosts'); allocation failure -> -1 and nothing handed out.", "finite evaluation with a scripted hosts table (K6)")
 _more("C42", "Added (C42-payload-eval): evtag_unmarshal evaluated on payload lengths 0, 1, all-that-is-buffered and a failing header, with evbuffer_pullup's contract (NULL for size 0): the length is "
       "returned, exactly the payload is handed on and drained.")
+_more("C39", "Added (C39-setport): sockaddr_setport evaluated for IPv4, IPv6 and another family x three ports: the port field of that family gets the port in network byte order (the two "
+      "branches agree), other families are untouched, and sockaddr_getport reads it back.")
+_more("C41", "Added (C41-rtrim): evutil_rtrim_lws_ evaluated in byte memory on 16 strings (empty, white space only, inner and leading white space, other control characters): exactly the "
+      "trailing SP/HT bytes go and nothing in front of the string is written.")
 _more("C04", "Added (C04-evmap): the reader/writer counts of an fd are stored only after the backend accepted the add (C05's rule, run here as well) — counts stored before a failing "
       "backend add make the next add believe the fd is registered, and the backend is never told about events this property promises to deliver.")
 _more("C35", "Added: the compression-table lookup is decided by evaluation — on every table of up to three distinct names (prefixes and suffixes of one another) and seven looked-up names the "
